@@ -100,5 +100,5 @@ Definition count_scripts maxd trs : Z :=
             (all_layouts maxd) 0.
 Example ex_domain_size :
   count_scripts 2 [TB] = 43784 /\ count_scripts 2 (step_triggers 3) = 218920 /\
-  List.length all_kinds = 20%nat.
+  List.length all_kinds = 12%nat.
 Proof. vm_compute. repeat split; reflexivity. Qed.
